@@ -258,4 +258,65 @@ CHECKS = {
         'assumptions': ['REPL lines share one scope by design and are not fresh evaluations', 'server request handlers (props/modules http) are not exercised: they evaluate user closures in the defining scope',
                         'history programs cannot assign to built-in objects (the language has no property assignment); in-place writes by built-ins are the subject of C06'],
     },
+    'C03': {
+        'lean_modules': ['Pangaea.Theorems.C03'],
+        'theorem_modules': ['Pangaea.Theorems.C03'],
+        'theorems': ['Pangaea.C03.positional', 'Pangaea.C03.arg_var', 'Pangaea.C03.arg_all', 'Pangaea.C03.arg_first', 'Pangaea.C03.keyword_param',
+                     'Pangaea.C03.kwarg_var', 'Pangaea.C03.kwarg_all'],
+        'harness': ['C03'],
+        'shards': 14,
+        'spec_is_function': True,
+        'rule': 'generated Core programs biased to function definitions and calls: nested function literals (parameters shadowing outer names on purpose), closures called after the defining scope reassigned a captured name, recursion, '
+                'keyword parameters with defaults evaluated at the literal, argument lists with fewer/more arguments, keyword arguments between positionals, duplicates, * and ** unpacking, argument variables, methods (self, receiver-less chain), '
+                'immediate and literal calls; every sub-expression may trace through t := {|v| v.p; v}. Oracle: stdout + final value (or error kind) equal the Lean reference evaluator\'s. non-trivial = all; distinct by source',
+        'trusted_base': [KERNEL, AX, TIE, 'Core reference evaluator lean/Pangaea/Core/Eval.lean: a hand transcription of evaluator/eval_*.go, iternew.go, iternext.go and the chain middlewares for the Core language (ints, strs, arrs, objs, ranges, function / method / iterator literals, calls with kwargs and */** unpacking, argument variables, chains, if, embedded strs, return/raise/yield/defer); programs reach it through the REAL parser (harness/core_sexp.go serialises ast.Node)', 'built-in properties modelled: p S repr == != B ! + - * // % < <= > >= -% len at call new next (others make a case unsupported, counted in evidence)'],
+        'assumptions': ['theorems are about the reference evaluator; the implementation is tied to it on the generated programs only', 'names in the naming hypotheses (Names) are plain identifiers; pattern parameters are not modelled'],
+    },
+    'C07': {
+        'lean_modules': ['Pangaea.Theorems.C07'],
+        'theorem_modules': ['Pangaea.Theorems.C07'],
+        'theorems': ['Pangaea.C07.' + t for t in ['infix_left', 'infix_right', 'shortcut_right', 'prefix_operand', 'assigned', 'if_condition', 'if_then', 'if_else', 'range_start', 'range_stop', 'range_step',
+                     'elems_head', 'elems_head_unpacked', 'elems_tail', 'arr_literal', 'args_head', 'args_head_unpacked_arr', 'args_head_unpacked_obj', 'args_tail', 'kws_head', 'kws_tail',
+                     'call_receiver', 'call_chain_argument', 'call_arguments', 'call_keyword_arguments', 'litcall_receiver', 'litcall_callee', 'pair_value_named', 'pair_value_computed', 'pair_key_computed',
+                     'pairs_tail_named', 'obj_pairs', 'obj_unpacked_head', 'obj_unpacked', 'embedded_part_head', 'embedded_str', 'default_value', 'stmt_expr', 'stmt_return', 'stmt_condition',
+                     'stmts_head', 'stmts_tail', 'body', 'call_body', 'stmts_head_defers', 'thoughtful_catches', 'nested_example']],
+        'harness': ['C07'],
+        'shards': 14,
+        'spec_is_function': True,
+        'rule': 'fault injection: for each generated Core program, the program itself and one variant per expression position (up to 12 per program quick / 40 thorough; position classes: operand, element, unpacked, argument, keyword-argument, '
+                'pair-key/value, range-bound, chain-argument, receiver, index, condition, branch, embedded-part, default, assigned, returned, result, shortcut-right) in which that sub-expression is replaced by a raise '
+                '(a call of boom(k) that prints a marker and raises, ValueErr.new, an undefined name, 1 // 0, a missing property). Oracles: (1) model-free fail-stop oracle against the uninjected run: either the position is never reached and '
+                'the run is unchanged, or the run ends with exactly the injected kind and message, nothing is printed after the marker and the output before it is a prefix of the uninjected output (programs with defer / ~ chains: model only); '
+                '(2) stdout + value / error kind equal the Lean reference evaluator\'s. non-trivial = all; distinct by source',
+        'trusted_base': [KERNEL, AX, TIE, 'Core reference evaluator lean/Pangaea/Core/Eval.lean: a hand transcription of evaluator/eval_*.go, iternew.go, iternext.go and the chain middlewares for the Core language (ints, strs, arrs, objs, ranges, function / method / iterator literals, calls with kwargs and */** unpacking, argument variables, chains, if, embedded strs, return/raise/yield/defer); programs reach it through the REAL parser (harness/core_sexp.go serialises ast.Node)', 'built-in properties modelled: p S repr == != B ! + - * // % < <= > >= -% len at call new next (others make a case unsupported, counted in evidence)'],
+        'assumptions': ['errors raised inside conversion hooks (B, S, ==) on user objects are outside the property and not generated', 'try / Either handlers are covered by C13; here the handlers are ~ chains and pending defers'],
+    },
+    'C08': {
+        'lean_modules': ['Pangaea.Theorems.C08'],
+        'theorem_modules': ['Pangaea.Theorems.C08'],
+        'theorems': ['Pangaea.C08.kwparams_any_order', 'Pangaea.C08.kwvars_any_order', 'Pangaea.C08.sortNames_eq_of_perm', 'Pangaea.C08.sortPairs_perm', 'Pangaea.C08.lookup_perm',
+                     'Pangaea.C08.addFirst_keeps', 'Pangaea.C08.addAllFirst_keeps'],
+        'harness': ['C08'],
+        'shards': 14,
+        'spec_is_function': True,
+        'rule': 'generated Core programs whose sub-expressions print when evaluated (receiver, chain argument, positional / keyword / unpacked arguments incl. duplicates, array elements, operands, range bounds, object pairs, embedded string parts, '
+                'defaults); each evaluated three times in this process (new interpreter, new Go map seeds) and every fourth also in a newly started process. Oracles: all runs give identical stdout / value / error; stdout + value equal the '
+                'Lean reference evaluator\'s (which fixes the order: the one written). non-trivial = all; distinct by source',
+        'trusted_base': [KERNEL, AX, TIE, 'Core reference evaluator lean/Pangaea/Core/Eval.lean: a hand transcription of evaluator/eval_*.go, iternew.go, iternext.go and the chain middlewares for the Core language (ints, strs, arrs, objs, ranges, function / method / iterator literals, calls with kwargs and */** unpacking, argument variables, chains, if, embedded strs, return/raise/yield/defer); programs reach it through the REAL parser (harness/core_sexp.go serialises ast.Node)', 'built-in properties modelled: p S repr == != B ! + - * // % < <= > >= -% len at call new next (others make a case unsupported, counted in evidence)'],
+        'assumptions': ['KNOWN FINDING: arguments of a variable call recv.^f(args) are parsed but never evaluated', 'goroutine timing at start-up (native sources) is exercised only by the new-process runs'],
+    },
+    'C14': {
+        'lean_modules': ['Pangaea.Theorems.C14'],
+        'theorem_modules': ['Pangaea.Theorems.C14'],
+        'theorems': ['Pangaea.C14.' + t for t in ['new_is_fresh', 'chain_source_is_copy', 'recur_swaps_only_self', 'recur_other_untouched', 'next_runs_body', 'guarded_yield_stops', 'guarded_yield_yields',
+                     'first_yield_wins', 'yield_is_result', 'result_is_yielded', 'chain_stops_at_stopiter', 'chain_passes_other_errors', 'chain_visits_next']],
+        'harness': ['C14'],
+        'shards': 14,
+        'spec_is_function': True,
+        'rule': 'generated histories over iterators derived from one literal (4 body shapes: guarded yield then recur; traced yield; recur before the guarded yield; local variable + keyword recur): interleaved new (from the literal and from '
+                'iterators), next, list chains, reduce chains, chains over fresh iterators, inside and outside functions, mixed with ordinary statements; every step prints. Oracle: stdout + value / error kind equal the Lean reference '
+                'evaluator\'s. non-trivial = all; distinct by source',
+        'trusted_base': [KERNEL, AX, TIE, 'Core reference evaluator lean/Pangaea/Core/Eval.lean: a hand transcription of evaluator/eval_*.go, iternew.go, iternext.go and the chain middlewares for the Core language (ints, strs, arrs, objs, ranges, function / method / iterator literals, calls with kwargs and */** unpacking, argument variables, chains, if, embedded strs, return/raise/yield/defer); programs reach it through the REAL parser (harness/core_sexp.go serialises ast.Node)', 'built-in properties modelled: p S repr == != B ! + - * // % < <= > >= -% len at call new next (others make a case unsupported, counted in evidence)'],
+        'assumptions': ['built-in iterators (arrays, ranges, strs) are visited as value lists; only iterator literals carry state'],
+    },
 }
